@@ -121,6 +121,8 @@ func c16RunImpl(c corr.Case) []string {
 					fs = top
 				}
 				return "ok"
+			case "walk-os-links":
+				return c16WalkOSLinks(t[1])
 			case "walk":
 				plan := c16Plan(t[2:])
 				var visits []string
@@ -151,7 +153,74 @@ func c16RunImpl(c corr.Case) []string {
 	return out
 }
 
+// c16WalkOSLinks: a tree with symbolic links on the operating system's file system (the in-memory one has none): the
+// package function afero.Walk, the method afero.Afero{Fs}.Walk and Walk through wrappers of the OsFs visit exactly what
+// filepath.Walk visits — a link is reported as a link (not a directory), not followed, and a dangling link is no error.
+func c16WalkOSLinks(how string) string {
+	dir, err := os.MkdirTemp("", "verif-c16l-")
+	if err != nil {
+		return "fail: " + err.Error()
+	}
+	defer os.RemoveAll(dir)
+	os.MkdirAll(filepath.Join(dir, "r/real/sub"), 0o755)
+	os.WriteFile(filepath.Join(dir, "r/real/sub/f"), []byte("x"), 0o644)
+	os.WriteFile(filepath.Join(dir, "r/a.txt"), []byte("x"), 0o644)
+	os.Symlink(filepath.Join(dir, "r/real"), filepath.Join(dir, "r/linkdir"))
+	os.Symlink("real/sub/f", filepath.Join(dir, "r/linkfile"))
+	os.Symlink("nowhere", filepath.Join(dir, "r/dangling"))
+	os.Symlink(filepath.Join(dir, "r"), filepath.Join(dir, "rootlink"))
+	collect := func(walk func(root string, fn filepath.WalkFunc) error, root string) string {
+		var vs []string
+		err := walk(root, func(p string, fi os.FileInfo, err error) error {
+			k := "?"
+			if fi != nil {
+				k = "f"
+				if fi.IsDir() {
+					k = "d"
+				}
+				if fi.Mode()&os.ModeSymlink != 0 {
+					k = "l"
+				}
+			}
+			e := ""
+			if err != nil {
+				e = "!"
+			}
+			vs = append(vs, strings.TrimPrefix(p, dir)+":"+k+e)
+			return nil
+		})
+		return strings.Join(vs, " ") + fmt.Sprintf(" => %v", err != nil)
+	}
+	var osfs afero.Fs = afero.NewOsFs()
+	var walk func(root string, fn filepath.WalkFunc) error
+	switch how {
+	case "func":
+		walk = func(root string, fn filepath.WalkFunc) error { return afero.Walk(osfs, root, fn) }
+	case "method":
+		walk = afero.Afero{Fs: osfs}.Walk
+	case "ro":
+		ro := afero.NewReadOnlyFs(osfs)
+		walk = func(root string, fn filepath.WalkFunc) error { return afero.Walk(ro, root, fn) }
+	case "ro-method":
+		walk = afero.Afero{Fs: afero.NewReadOnlyFs(osfs)}.Walk
+	default:
+		return "bad-op"
+	}
+	for _, root := range []string{filepath.Join(dir, "r"), filepath.Join(dir, "rootlink"), filepath.Join(dir, "r/linkdir"), filepath.Join(dir, "r/dangling")} {
+		got, want := collect(walk, root), collect(filepath.Walk, root)
+		if got != want {
+			return fmt.Sprintf("fail: walking %s (%s): afero visits [%s], filepath.Walk visits [%s]", strings.TrimPrefix(root, dir), how, got, want)
+		}
+	}
+	return "ok"
+}
+
 func c16Oracle(c corr.Case, impl []string) (string, int) {
+	for i, l := range c.Lines {
+		if strings.HasPrefix(l, "walk-os-links") && strings.HasPrefix(impl[i], "fail") {
+			return impl[i], i
+		}
+	}
 	dir, err := os.MkdirTemp("", "verif-c16-")
 	if err != nil {
 		panic(err)
@@ -306,8 +375,9 @@ func c16Random(r *corr.Rand, tier string) []corr.Case {
 // every single and every pair of (visit index, action) on a fixed tree: SkipDir / error on any entry
 func c16Exhaustive(tier string) []corr.Case {
 	h := corr.HexS
+	links := corr.Case{Lines: []string{"case mem", "walk-os-links func", "walk-os-links method", "walk-os-links ro", "walk-os-links ro-method"}}
 	items := []string{"d:" + h("/r"), "f:" + h("/r/a"), "d:" + h("/r/b"), "f:" + h("/r/b/x"), "d:" + h("/r/b/y"), "f:" + h("/r/b/y/z"), "f:" + h("/r/c"), "d:" + h("/r/d"), "f:" + h("/r/e")}
-	var cases []corr.Case
+	cases := []corr.Case{links}
 	for _, st := range []string{"mem", "ro", "cow"} {
 		for _, root := range []string{"/r", "/r/b", "/r/a", "/r/d", "/nope", "/", "/r/./b", "/r//b", "/r/b/.", "/r/b/", "/r/d/../b", "/r/b/y/..", "/r/"} {
 			l := []string{"case " + st, "tree " + strings.Join(items, " "), "walk " + h(root)}
@@ -353,6 +423,7 @@ func C16() *corr.Engine {
 		},
 		Exhaustive: c16Exhaustive, Random: c16Random,
 		RunImpl: c16RunImpl, Oracle: c16Oracle,
+		CompareLine: func(impl, model string) bool { return model == "unmodelled" || impl == model },
 		NonTrivial: func(c corr.Case, impl []string) bool {
 			skip, wild := false, false
 			for _, l := range c.Lines {
